@@ -202,11 +202,17 @@ func (service *TranslatorService) DecryptSearchable(ctx context.Context, data, h
 	}
 	logger.Debugln("Decrypt AcraStruct")
 	hashPart, containerData := hmac.ExtractHashAndData(dataToDecrypt)
-	if hashPart == nil {
-		return nil, ErrCantDecrypt
-	}
 	accessContext := base.NewAccessContext(base.WithClientID(clientID))
 	dataCtx := base.SetAccessContextToContext(ctx, accessContext)
+	if hashPart == nil {
+		// check poison records (same as DecryptSymSearchable does for data without a hash)
+		logger.WithField(logging.FieldKeyEventCode, logging.EventCodeErrorTranslatorCantDecryptAcraStruct).
+			Errorln("Can't split ciphertext to hash and encrypted data")
+		if _, _, err := service.poisonDetector.OnColumn(dataCtx, dataToDecrypt); err != nil {
+			logger.WithField(logging.FieldKeyEventCode, logging.EventCodeErrorDecryptorCantCheckPoisonRecord).WithError(err).Errorln("Can't check for poison record with AcraStruct, possible missing Poison record decryption key")
+		}
+		return nil, ErrCantDecrypt
+	}
 	dataContext := &base.DataProcessorContext{Keystore: service.data.Keystorage, Context: dataCtx}
 	handler, err := crypto.GetHandlerByEnvelopeID(crypto.AcraStructEnvelopeID)
 	if err != nil {
